@@ -218,6 +218,10 @@ func hostport(host, defaultPort string) (hostname, addr string) {
 		bracket = strings.IndexByte(host, ']')
 	)
 	if colon > bracket {
+		if colon == len(host)-1 {
+			// An empty port means the default one.
+			return host[:colon], host[:colon] + defaultPort
+		}
 		return host[:colon], host
 	}
 	return host, host + defaultPort
